@@ -3,7 +3,7 @@ import os
 import re
 import zipfile
 from contextlib import closing
-from typing import Iterable, Optional
+from typing import Iterable, List, Optional
 
 from req_compile import utils
 from req_compile.containers import DistInfo
@@ -76,7 +76,15 @@ def _parse_flat_metadata(contents: str) -> DistInfo:
     version = None
     raw_reqs = []
 
+    # RFC 822: a line that starts with white space continues the previous header.
+    lines: List[str] = []
     for line in contents.split("\n"):
+        if lines and line[:1] in (" ", "\t"):
+            lines[-1] = lines[-1].rstrip("\r") + line
+        else:
+            lines.append(line)
+
+    for line in lines:
         lower_line = line.lower()
         if name is None and lower_line.startswith("name:"):
             name = line.partition(":")[2].strip()
